@@ -28,6 +28,8 @@ def cpp_type(ty):
         return "hv::Trk<%s>" % ty[1:]
     if ty[0] == "c":
         return "hv::Trc<%s>" % ty[1:]
+    if ty[0] == "a":
+        return "hv::Tra<%s>" % ty[1:]
     raise ValueError(ty)
 
 
@@ -188,6 +190,10 @@ CORPUS = [
     Cfg("trc-fixed", [("p", "u32", 1), ("f", "c8", 1)]),
     Cfg("trc-mixed-trivial", [("p", "u32", 4), ("p", "c8", 1), ("f", "f32", 1), ("f", "c12", 1)]),
     Cfg("trc-varying", [("p", "u8", 1), ("v", "c5", 1), ("p", "c8", 4)]),
+    # value types whose ASSIGNMENT is user-provided while construction and destruction are trivial: relocation may memcpy,
+    # assignment and swap of stored objects must call the operators
+    Cfg("tra-fixed", [("p", "u32", 1), ("f", "a8", 1)]),
+    Cfg("tra-mixed", [("f", "a8", 1), ("p", "a4", 4), ("p", "u8", 1), ("v", "u8", 1)]),
 ]
 
 
